@@ -19,3 +19,9 @@ def run(ctx) -> None:
     # N3: the argument is typed in the surrounding context -> judged by that role's rules
     args = [r for r in res if r.rule.split(".")[0] in ("R1", "R2", "R3", "A1", "A2", "A3") and "rewritten" not in r.atom]
     report(ctx, args, "C04.N3", prefixes=("R", "A"))
+    # N4: the $not argument is compiled under the rule's own full-match flags, from the constructor on
+    from ._matchrules import flags_end_to_end
+    from ..models import Sym
+    flags_end_to_end(ctx, "C04.N4.argument-under-own-flags", [
+        ("$not of an instruction, then an instruction", [{"$not": [{Sym("M1"): [Sym("O1")]}]}, {Sym("M2"): [Sym("O2")]}]),
+        ("operand-level $not", [{Sym("M1"): [{"$not": [Sym("O1")]}, Sym("O2")]}])])
